@@ -3,13 +3,13 @@
 //!
 //! ```text
 //! decl  := ( MAC KIND GEN ( reprs attr* ) body )
-//! MAC   := align1 | zc | zcpod | zcskip | unsized
+//! MAC   := align1 | zc | zcpod | zcskip | unsized | unsizednp   (np: `skip_phantom_generics`)
 //! KIND  := struct | tuple | union | enum
 //! GEN   := plain | generic
 //! attr  := ( hint* )                      one `#[repr(...)]` attribute
 //! hint  := C | transparent | packed | packedN | alignN | u8 | i8 | u16 | ... | isize
 //! body  := ( fields fty* )                 KIND != enum, MAC != unsized
-//!        | ( fields fty* ) ( tail uty+ )   MAC = unsized (KIND struct|tuple)
+//!        | ( fields fty* ) ( tail uty+ )   MAC = unsized|unsizednp (KIND struct|tuple)
 //!        | ( variants ( fty* )* )          KIND = enum
 //! fty   := u8 | i8 | bool | u8x3 | pubkey | unit | phantom | u16 | u32 | u64 | pv64 | np | na2 | ne
 //!        | u16x2 | tup16
@@ -24,6 +24,8 @@ pub enum Mac {
     ZcPod,
     ZcSkip,
     Unsized,
+    /// `#[unsized_type(skip_phantom_generics)]`: no `_generics` marker in the sized part
+    UnsizedNp,
 }
 impl Mac {
     pub fn tok(self) -> &'static str {
@@ -33,6 +35,7 @@ impl Mac {
             Mac::ZcPod => "zcpod",
             Mac::ZcSkip => "zcskip",
             Mac::Unsized => "unsized",
+            Mac::UnsizedNp => "unsizednp",
         }
     }
     fn parse(s: &str) -> Option<Mac> {
@@ -42,8 +45,12 @@ impl Mac {
             "zcpod" => Mac::ZcPod,
             "zcskip" => Mac::ZcSkip,
             "unsized" => Mac::Unsized,
+            "unsizednp" => Mac::UnsizedNp,
             _ => return None,
         })
+    }
+    pub fn is_unsized(self) -> bool {
+        matches!(self, Mac::Unsized | Mac::UnsizedNp)
     }
     pub fn is_zc(self) -> bool {
         matches!(self, Mac::Zc | Mac::ZcPod | Mac::ZcSkip)
@@ -228,7 +235,7 @@ impl Decl {
         let (mut fields, mut variants, mut tail) = (vec![], vec![], vec![]);
         p.eat("(")?;
         if kind == Kind::Enum {
-            if mac == Mac::Unsized {
+            if mac.is_unsized() {
                 return None;
             }
             p.eat("variants")?;
@@ -251,7 +258,7 @@ impl Decl {
             if !fields.iter().all(fty_ok) {
                 return None;
             }
-            if mac == Mac::Unsized {
+            if mac.is_unsized() {
                 if !matches!(kind, Kind::Struct | Kind::Tuple) {
                     return None;
                 }
@@ -299,7 +306,7 @@ impl Decl {
                 s.push_str(f);
             }
             s.push_str(" )");
-            if self.mac == Mac::Unsized {
+            if self.mac.is_unsized() {
                 s.push_str(" ( tail");
                 for f in &self.tail {
                     s.push(' ');
@@ -320,7 +327,7 @@ impl Decl {
     pub fn insts(&self) -> Vec<Option<&'static str>> {
         if !self.generic {
             vec![None]
-        } else if self.mac == Mac::Unsized {
+        } else if self.mac.is_unsized() {
             vec![Some("u8"), Some("bool")]
         } else {
             vec![Some("u8"), Some("u16")]
@@ -344,25 +351,26 @@ impl Decl {
             Mac::Zc => s.push_str("#[zero_copy]\n"),
             Mac::ZcPod => s.push_str("#[zero_copy(pod)]\n"),
             Mac::ZcSkip => s.push_str("#[zero_copy(skip_packed)]\n"),
-            Mac::Unsized => {
+            Mac::Unsized | Mac::UnsizedNp => {
+                let np = if self.mac == Mac::UnsizedNp { ", skip_phantom_generics" } else { "" };
                 if self.attrs.is_empty() {
-                    s.push_str("#[unsized_type(skip_idl)]\n");
+                    s.push_str(&format!("#[unsized_type(skip_idl{np})]\n"));
                 } else {
                     let a: Vec<String> = self
                         .attrs
                         .iter()
                         .map(|a| format!("repr({})", a.iter().map(|h| hint_rust(h)).collect::<Vec<_>>().join(", ")))
                         .collect();
-                    s.push_str(&format!("#[unsized_type(skip_idl, sized_attributes = [{}])]\n", a.join(", ")));
+                    s.push_str(&format!("#[unsized_type(skip_idl{np}, sized_attributes = [{}])]\n", a.join(", ")));
                 }
             }
         }
-        if self.mac != Mac::Unsized {
+        if !self.mac.is_unsized() {
             s.push_str(&self.repr_lines());
         }
         let gen = if !self.generic {
             ""
-        } else if self.mac == Mac::Unsized {
+        } else if self.mac.is_unsized() {
             "<T: star_frame::unsize::impls::UnsizedGenerics>"
         } else if self.kind == Kind::Union {
             "<T: Copy>"
@@ -412,14 +420,14 @@ impl Decl {
         let mut s = String::from("#![allow(warnings)]\nuse star_frame::prelude::*;\n\n");
         s.push_str(&self.render_decl());
         s.push_str("\npub fn probe(out: &mut Vec<String>) {\n    let mut items: Vec<String> = vec![];\n");
-        let with_bits = self.mac.is_zc() || self.mac == Mac::Unsized;
+        let with_bits = self.mac.is_zc() || self.mac.is_unsized();
         for x in self.insts() {
             let label = x.unwrap_or("-");
             let targ = match x {
                 Some(x) => format!("<{}>", fty_rust(x, None)),
                 None => String::new(),
             };
-            if self.mac == Mac::Unsized {
+            if self.mac.is_unsized() {
                 // the real use: instantiating the wrapper forces `ZST_STATUS`
                 s.push_str(&format!(
                     "    {{ let t = star_frame::unsize::TestByteSet::<D{targ}>::new_default().unwrap(); let _d = t.data_mut().unwrap(); }}\n"
@@ -429,7 +437,7 @@ impl Decl {
                     continue;
                 }
             }
-            let ty = if self.mac == Mac::Unsized { format!("DSized{targ}") } else { format!("D{targ}") };
+            let ty = if self.mac.is_unsized() { format!("DSized{targ}") } else { format!("D{targ}") };
             let sz = |f: &String| format!("core::mem::size_of::<{}>()", fty_rust(f, x));
             let shape = match self.kind {
                 Kind::Struct | Kind::Tuple => {
